@@ -122,13 +122,13 @@ class _Rd(object):
     def bin16(self):
         return self.raw(self.u16())
 
-    def utf8(self):
+    def utf8(self, nul_ok=False):
         raw = self.bin16()
         try:
             s = raw.decode("utf-8")       # strict: rejects surrogates, overlongs
         except UnicodeDecodeError:
             raise Malformed("ill-formed UTF-8")
-        if "\x00" in s:
+        if "\x00" in s and not nul_ok:
             raise Malformed("U+0000 in string")
         return s
 
@@ -240,7 +240,7 @@ def encode(pkt, version=V311):
 
 # ------------------------------------------------------------------ decoder
 
-def decode(raw, version=V311, strict=True, direction=None):
+def decode(raw, version=V311, strict=True, direction=None, semantic=True):
     """Decode one complete frame.  Raises Malformed.
 
     strict=True applies every rule of the negotiated version; strict=False only
@@ -278,14 +278,14 @@ def decode(raw, version=V311, strict=True, direction=None):
         pkt["retain"] = bool(flags & 1)
         if strict and qos == 0 and pkt["dup"]:
             raise Malformed("DUP set on QoS 0 PUBLISH")
-        pkt["topic"] = rd.utf8()
-        if strict and (pkt["topic"] == "" ):
+        pkt["topic"] = rd.utf8(nul_ok=not semantic)
+        if strict and semantic and (pkt["topic"] == "" ):
             raise Malformed("empty topic name")
-        if strict and ("#" in pkt["topic"] or "+" in pkt["topic"]):
+        if strict and semantic and ("#" in pkt["topic"] or "+" in pkt["topic"]):
             raise Malformed("wildcard in topic name")
         if qos:
             pkt["id"] = rd.u16()
-            if strict and pkt["id"] == 0:
+            if strict and semantic and pkt["id"] == 0:
                 raise Malformed("packet identifier 0")
         else:
             pkt["id"] = None
@@ -348,7 +348,9 @@ def decode(raw, version=V311, strict=True, direction=None):
         pkt["id"] = rd.u16()
         if strict:
             rd.end()
-            if pkt["id"] == 0:
+            # PUBACK/PUBREC/PUBCOMP written by the client echo a received identifier
+            echo = direction == "c2b" and t in ("PUBACK", "PUBREC", "PUBCOMP")
+            if pkt["id"] == 0 and semantic and not echo:
                 raise Malformed("packet identifier 0")
     elif t == "SUBSCRIBE":
         pkt["id"] = rd.u16()
@@ -373,7 +375,7 @@ def decode(raw, version=V311, strict=True, direction=None):
             if not pkt["granted"]:
                 raise Malformed("SUBACK without return codes")
             for g in pkt["granted"]:
-                if g not in (0, 1, 2, 0x80):
+                if semantic and g not in (0, 1, 2, 0x80):
                     raise Malformed("reserved SUBACK return code", code=g)
     elif t == "UNSUBSCRIBE":
         pkt["id"] = rd.u16()
@@ -405,14 +407,19 @@ def judge_b2c(raw, version=V311, lenient_flags=True):
     lenient_flags: an ack whose only defect is a non-zero reserved flag nibble is
     treated as well-formed (DESIGN 6 I4)."""
     try:
-        return True, decode(raw, version, strict=True, direction="b2c")
+        return True, decode(raw, version, strict=True, direction="b2c", semantic=False)
     except Malformed as e:
         if lenient_flags:
             try:
                 t = TYPES.get(raw[0] >> 4)
+                if t == "CONNACK" and len(raw) == 4 and raw[1] == 2:
+                    # the first CONNACK byte is "reserved / not used" in 3.1 and only bit 0
+                    # is defined in 3.1.1: the other bits are don't-care here (I4)
+                    fixed = bytes((0x20, 2, raw[2] & 1, raw[3]))
+                    return True, decode(fixed, version, strict=True, direction="b2c", semantic=False)
                 if t and t != "PUBLISH" and t in BROKER_TO_CLIENT:
                     fixed = bytes(((raw[0] & 0xF0) | FIXED_FLAGS[t],)) + bytes(raw[1:])
-                    return True, decode(fixed, version, strict=True, direction="b2c")
+                    return True, decode(fixed, version, strict=True, direction="b2c", semantic=False)
             except Malformed:
                 pass
         return False, e
